@@ -585,7 +585,43 @@ fn count_clauses(spec: &str) -> (usize, usize) {
     (req, ens)
 }
 
+fn const_eval(e: &syn::Expr, env: &BTreeMap<String, i128>) -> Option<i128> {
+    match e {
+        syn::Expr::Lit(l) => match &l.lit {
+            syn::Lit::Int(i) => i.base10_parse::<i128>().ok(),
+            _ => None,
+        },
+        syn::Expr::Paren(p) => const_eval(&p.expr, env),
+        syn::Expr::Group(p) => const_eval(&p.expr, env),
+        syn::Expr::Cast(c) => const_eval(&c.expr, env),
+        syn::Expr::Path(p) => {
+            let id = p.path.segments.last()?.ident.to_string();
+            env.get(&id).copied()
+        }
+        syn::Expr::Unary(u) => match u.op {
+            syn::UnOp::Neg(_) => const_eval(&u.expr, env).map(|v| -v),
+            _ => None,
+        },
+        syn::Expr::Binary(b) => {
+            let l = const_eval(&b.left, env)?;
+            let r = const_eval(&b.right, env)?;
+            match b.op {
+                syn::BinOp::Add(_) => l.checked_add(r),
+                syn::BinOp::Sub(_) => l.checked_sub(r),
+                syn::BinOp::Mul(_) => l.checked_mul(r),
+                syn::BinOp::Div(_) => if r != 0 { Some(l / r) } else { None },
+                syn::BinOp::Rem(_) => if r != 0 { Some(l % r) } else { None },
+                syn::BinOp::Shl(_) => if (0..100).contains(&r) { l.checked_shl(r as u32) } else { None },
+                syn::BinOp::Shr(_) => if (0..127).contains(&r) { Some(l >> r) } else { None },
+                _ => None,
+            }
+        }
+        _ => None,
+    }
+}
+
 struct Ctx {
+    consts: BTreeMap<String, i128>,
     repo: String,
     verif: String,
     vacuity: bool,
@@ -1000,16 +1036,33 @@ fn emit_item(ctx: &mut Ctx, file: &str, name: &str, opts: &BTreeMap<String, Stri
         }
     }
     Strip.visit_item_mut(&mut it);
-    let mut stats = Stats::default();
+    let mut folded: Option<(String, i128)> = None;
     if let syn::Item::Const(c) = &mut it {
-        let en = opts.get("ops").map(|s| s != "keep").unwrap_or(false);
-        OpRewriter { stats: &mut stats, enabled: en }.visit_expr_mut(&mut c.expr);
+        // integer constant expressions are folded (Verus rejects `/` in dual-mode consts); the original
+        // expression is kept in a comment and in the report
+        let is_lit = matches!(&*c.expr, syn::Expr::Lit(_));
+        if let Some(v) = const_eval(&c.expr, &ctx.consts) {
+            ctx.consts.insert(c.ident.to_string(), v);
+            if !is_lit {
+                folded = Some((c.expr.to_token_stream().to_string(), v));
+                let lit = syn::LitInt::new(&v.to_string(), proc_macro2::Span::call_site());
+                if v >= 0 {
+                    *c.expr = syn::parse_quote!(#lit);
+                } else {
+                    let lit = syn::LitInt::new(&(-v).to_string(), proc_macro2::Span::call_site());
+                    *c.expr = syn::parse_quote!(-#lit);
+                }
+            }
+        }
     }
     let _ = writeln!(out, "//vx-begin item {}", name);
     if let Some(a) = opts.get("attr") {
         let _ = writeln!(out, "{}", a);
     }
     let txt = pretty(it.to_token_stream(), 0);
+    if let Some((orig, v)) = &folded {
+        let _ = writeln!(out, "// const-folded by vx: {} = {}", orig, v);
+    }
     let _ = writeln!(out, "{}", txt.trim_end());
     let _ = writeln!(out, "//vx-end item {}", name);
     ctx.report.push(format!(
@@ -1031,6 +1084,7 @@ fn main() {
         repo: args[2].clone(),
         verif: args[3].clone(),
         vacuity: args.iter().any(|a| a == "--vacuity"),
+        consts: BTreeMap::new(),
         files: BTreeMap::new(),
         report: vec![],
     };
